@@ -122,7 +122,8 @@ class Scope:
         """Coarse class of a named scope for fingerprints."""
         if self.kind == "module":
             return "module"
-        if self.in_compound:
+        if self.in_compound or any(a.in_compound for a in self.ancestors()):
+            # the scope, or a scope around it, is defined inside a compound statement (if/try/with/for ...)
             return "def-in-compound" if self.kind == "def" else "class-in-compound"
         if getattr(self.node, "decorator_list", None):
             return "decorated-def" if self.kind == "def" else "decorated-class"
@@ -500,8 +501,8 @@ def judge(exp: Expectation, base: Observation, obs: Observation):
     """Compare one observation with the expectation; yield dicts (sig, line, reason, scope, detail)."""
     m = exp.model
 
-    def v(sig, line, reason, scope, detail):
-        return {"sig": sig, "line": line, "reason": reason, "scope": scope, "detail": detail}
+    def v(sig, line, reason, scope, detail, co=None):
+        return {"sig": sig, "line": line, "reason": reason, "scope": scope, "detail": detail, "co": co}
 
     if exp.must_raise is not None:
         if obs.error is None:
@@ -521,19 +522,19 @@ def judge(exp: Expectation, base: Observation, obs: Observation):
     for ln, cn in sorted(obs.lines.items()):
         if 1 <= ln <= m.n and exp.line[ln] == EXC:
             yield v("goal-inside-excluded:line", ln, exp.reason[ln], m.owner[ln],
-                    f"line {ln} ({cn}) is a line goal inside excluded code")
+                    f"line {ln} ({cn}) is a line goal inside excluded code", cn)
     seen = set()
     for (cn, cf, ln) in obs.predicates:
         if isinstance(ln, int) and 1 <= ln <= m.n and exp.line[ln] == EXC and ln not in seen:
             seen.add(ln)
             yield v("goal-inside-excluded:branch", ln, exp.reason[ln], m.owner[ln],
-                    f"a predicate on line {ln} ({cn}) gives branch goals inside excluded code")
+                    f"a predicate on line {ln} ({cn}) gives branch goals inside excluded code", cn)
     for (cn, cf) in sorted(obs.branchless):
         st, why = exp.code_status(cn, cf)
         if st == EXC:
             sc = m.scope_of_code(cn, cf) or (m.owner[cf] if 1 <= cf <= m.n else None)
             yield v("goal-inside-excluded:codeobject", cf, why, sc,
-                    f"branch-less code object {cn}@{cf} is a goal although its scope is excluded")
+                    f"branch-less code object {cn}@{cf} is a goal although its scope is excluded", cn)
     # nothing may appear that the exclusion-free run does not have
     for ln in sorted(set(obs.lines) - set(base.lines)):
         yield v("goal-not-in-baseline:line", ln, None, None, f"line goal {ln} does not exist without exclusions")
@@ -585,7 +586,11 @@ def label(exp: Expectation, violation, config_label):
             chain.append(s)
             s = s.parent
         below = chain
-    out = construct + (">def" if below else "")
+    co = violation.get("co") or ""
+    anonymous = co.startswith("<") and co != "<module>"          # lambda / generator expression code object
+    if anonymous and construct in ("def", "class"):
+        anonymous = False
+    out = construct + (">def" if below or anonymous else "")
     deco = [c for c in chain if _decorated(c)]
     if anchor[0] == "line" and scope is not None and not chain and _decorated(scope):
         deco = [scope]
